@@ -79,6 +79,13 @@ def gen_cases(ctx):
             lst = rng.choice(lists)
             yield {"supported": lst, "preferred": rng.choice(UNIVERSE + [None, "", "foreign"]),
                    "answer": rng.choice(answers_for(lst)), "tracked": rng.random() < 0.5}
+    # the write stream fails at the n-th message (the peer went away / a concurrent shutdown closed it)
+    for lst in lists[:6]:
+        for nth in (1, 2):
+            for exc in ("broken", "closed", "oserror"):
+                for tracked in (False, True):
+                    yield {"supported": lst, "preferred": None, "answer": {"kind": "version", "v": lst[0]}, "tracked": tracked,
+                           "write_fault": {"at": nth, "exc": exc}}
     # default list (None) = the library's own
     for ans in answers_for(["2025-06-18"]):
         yield {"supported": None, "preferred": None, "answer": ans, "tracked": True}
@@ -118,6 +125,24 @@ def build_answer(ans: Dict[str, Any], rid) -> Any:
     if ans["kind"] == "error":
         return {"jsonrpc": "2.0", "id": rid, "error": {"code": ans["code"], "message": ans["msg"]}}
     return None
+
+
+class FaultySend:
+    """Write stream whose n-th send() raises instead of delivering (nothing is recorded for it)."""
+
+    def __init__(self, inner, at: int, exc: str):
+        self._inner, self._at, self._exc, self.n = inner, at, exc, 0
+
+    async def send(self, item):
+        import anyio
+        self.n += 1
+        if self.n == self._at:
+            raise {"broken": anyio.BrokenResourceError, "closed": anyio.ClosedResourceError,
+                   "oserror": lambda: OSError("pipe gone")}[self._exc]()
+        return await self._inner.send(item)
+
+    def __getattr__(self, name):
+        return getattr(self._inner, name)
 
 
 def exec_case(ctx, case: Dict[str, Any]) -> None:
@@ -163,11 +188,13 @@ def exec_case(ctx, case: Dict[str, Any]) -> None:
         t0 = loop.time()
         kw = dict(timeout=TIMEOUT, supported_versions=(list(case["supported"]) if case["supported"] is not None else None),
                   preferred_version=case["preferred"])
+        wf = case.get("write_fault")
+        write = FaultySend(pipe.write, wf["at"], wf["exc"]) if wf else pipe.write
         try:
             if case["tracked"]:
-                res = await send_initialize_with_client_tracking(pipe.read, pipe.write, client, **kw)
+                res = await send_initialize_with_client_tracking(pipe.read, write, client, **kw)
             else:
-                res = await send_initialize(pipe.read, pipe.write, **kw)
+                res = await send_initialize(pipe.read, write, **kw)
             obs["outcome"] = ("return", res)
         except BaseException as e:  # noqa
             if isinstance(e, (KeyboardInterrupt, SystemExit)):
@@ -197,6 +224,23 @@ def exec_case(ctx, case: Dict[str, Any]) -> None:
     okind, oval = obs["outcome"]
     expected_proposal = case["preferred"] if (case["preferred"] and case["preferred"] in lst) else lst[0]
 
+    wf = case.get("write_fault")
+    if wf:
+        # the handshake cannot have completed: success would mean "initialized was sent", which it was not
+        ctx.count("write_fault_handshakes")
+        notes_sent = [e for e in sends if getattr(e["obj"], "method", None) == "notifications/initialized"]
+        if okind == "return":
+            ctx.violation("success_without_initialized_notification", f"the write stream failed at message #{wf['at']} "
+                          f"({wf['exc']}) yet the call returned {oval!r}; {len(notes_sent)} initialized notifications were "
+                          f"delivered", case)
+        if case["tracked"] and okind == "return" and obs["binfo"]["protocol_version"] is not None and not notes_sent:
+            ctx.violation("tracked_version_set_on_failure", f"tracked client has version {obs['binfo']} although the "
+                          f"handshake never completed", case)
+        if obs["t_done"] > TIMEOUT + 0.001:
+            ctx.violation("deadline_overrun", f"ended at {obs['t_done']}", case)
+        ctx.record(case, shape=[okind, type(oval).__name__, len(notes_sent)], cls=f"write_fault:{wf['at']}:{wf['exc']}",
+                   sample={"case": case, "outcome": [okind, type(oval).__name__]})
+        return
     # ---- first write: initialize proposing the right version ---------------
     if not sends:
         ctx.violation("nothing_written", "no initialize request written", case)
